@@ -33,11 +33,23 @@ func strictStep(fam string, l Line) bool {
 	return false
 }
 
+// joinedMap: first half of a joined line -> its possible second halves.
+type joinedMap map[string][]string
+
+func (m joinedMap) has(first, second string) bool {
+	for _, x := range m[first] {
+		if x == second {
+			return true
+		}
+	}
+	return false
+}
+
 // joinedSecond maps the first half of every joined line of the planned
 // script to its second half (sent in the same packet, hence allowed to
 // arrive after a fault on the first half).
-func joinedSecond(sc *Scenario) map[string]string {
-	m := map[string]string{}
+func joinedSecond(sc *Scenario) joinedMap {
+	m := joinedMap{}
 	if sc.Family != "asa" && sc.Family != "ios" {
 		return m
 	}
@@ -48,7 +60,7 @@ func joinedSecond(sc *Scenario) map[string]string {
 	res := tool.CompareStd(files)
 	for _, st := range tool.CiscoScript(res.Stdout) {
 		if len(st) == 2 {
-			m[st[0]] = st[1]
+			m[st[0]] = append(m[st[0]], st[1])
 		}
 	}
 	return m
@@ -144,7 +156,7 @@ func oracleC09(c *props.Case) props.Verdict {
 		l := o.Lines[i]
 		switch l.Class {
 		case "change", "prepare", "reload-arm":
-			if i == o.FaultAt+1 && joined[fl.Text] == l.Text && l.Class == "change" {
+			if i == o.FaultAt+1 && joined.has(fl.Text, l.Text) && l.Class == "change" {
 				continue // second half of the same packet
 			}
 			if i == o.FaultAt+1 && sc.Family == "linux" && linuxJoined(fl.Text, l.Text) {
